@@ -614,7 +614,8 @@ SP_VALS = [0, 1, "x", 1.0, True, None, [1, 2], {"n": 0}, {"n": 1}]
 SP_VALS_PLAIN = [0, 1, "x"]
 DOC_KEYS = ["k", "m"]
 DOC_VALS = [0, "s", [1], {"q": 1}, 2.5]  # no None: the dependency ignores None over a nested collection on load (C05, F-5d)
-FILES = ["f.txt", "g.dat", "sub/h.txt"]
+# user files; two have names that look like temp / backup files (`._<x>_<name>`, `<name>~`) but are data
+FILES = ["f.txt", "g.dat", "sub/h.txt", "._run_0.log", "sub/notes.txt~"]
 FOREIGN = ["tmp", "x" * 31, "0" * 33, "ABCDEF0123456789ABCDEF0123456789"]
 
 
@@ -998,8 +999,12 @@ def lockstep(ops, ctx, nproj=2, check_handles=True, stop_at_first=True):
                     failures.append("step %d %s: project %d holds %s, reference model says %s" % (
                         i, json.dumps(op), p, json.dumps(got, sort_keys=True)[:400], json.dumps(exp, sort_keys=True)[:400]))
                 api = obs[p]["api"]
-                if obs[p]["leftovers"]:
-                    failures.append("step %d %s: leftovers %s" % (i, json.dumps(op), obs[p]["leftovers"]))
+                # names that look like temp / backup files are leftovers unless the reference model holds a user
+                # file of that name in that job
+                left = [x for x in obs[p]["leftovers"]
+                        if x.split("/", 1)[-1] not in (exp.get(x.split("/", 1)[0]) or {}).get("files", {})]
+                if left:
+                    failures.append("step %d %s: leftovers %s" % (i, json.dumps(op), left))
                 if api.get("check") != "ok":
                     failures.append("step %d %s: check() -> %s" % (i, json.dumps(op), api.get("check")))
                 ids = sorted(exp)
